@@ -70,6 +70,10 @@ impl Packet {
             return match packet_type {
                 PacketType::PingReq => Ok(Packet::PingReq(PingReq)),
                 PacketType::PingResp => Ok(Packet::PingResp(PingResp)),
+                // reason code and properties can be omitted for a normal disconnection
+                PacketType::Disconnect => Ok(Packet::Disconnect(Disconnect::new(
+                    DisconnectReasonCode::NormalDisconnection,
+                ))),
                 _ => Err(Error::PayloadRequired),
             };
         }
